@@ -1,6 +1,6 @@
 \* exhaustive: cells with |index| <= 12 x {centre cell, no centre cell} x {periodic (square cells), reflective, full (square, 2x1, 1x3 cells)};
 \* act is part of the state; MaxLevel 3 = every Apply / ChangePitch step out of every state reached by one step
-CONSTANTS R = 12  MaxLevel = 3  RectPitches <- RectP  SquarePitches <- SquareP
+CONSTANTS R = 12  MaxLevel = 3  RectPitches <- RectP  SquarePitches <- SquareP  AllSp = FALSE
 INIT Init
 NEXT NextB
 CONSTRAINT Bound
